@@ -12,11 +12,21 @@ CHECKS = {
   note=TRUST + " The hook StringStore::intern repeats the get-else-insert glue of new_gc_obj_string.",
   technique="Lean 4 proof (invariant by induction over operations, arbitrary hash function) + op-sequence correspondence with the real table",
   ref="DESIGN.md section 5 C11"),
+ "C12": dict(
+  text="Lean 4 theorems: the language's value hash (with -0 normalised) is coherent with == on all hashable keys (coherent_fixed; the unrepaired hash is proved incoherent at 0/-0); under a coherent hash a map that only inspects equal-hash entries (the std::HashMap contract) behaves exactly like an association list keyed by == on every operation sequence (bucketed_refines_assoc); that list is a map by == (assoc_is_map_by_eq: get/insert/remove/len laws, enumerations list each entry once); unhashable keys are rejected and leave the map unchanged; NaN keys stated. Tie: operation sequences over pools of equal-but-differently-built and hash-colliding keys run on the real HashMap and on the model, plus an independent abstract map keyed by ==.",
+  note=TRUST + " std::collections::HashMap is assumed to meet its contract (only equal-hash candidates are compared with ==). Tuple identity shortcut (a NaN-containing tuple compared with itself) is outside the model.",
+  technique="Lean 4 proof (hash/== coherence by induction on keys; refinement bucketed map -> association list) + op-sequence correspondence with an independent == oracle",
+  ref="DESIGN.md section 5 C12"),
  "C16": dict(
   text="Lean 4 theorems on the pacing model (overshoot_le_one_alloc, thr_is_twice_survivors, no_unbounded_growth for every allocation history), on root counting (roots_exact) and on the collector model (collect_complete: nothing unreachable survives; sweep_bytes: exact byte accounting). Tie: every allocation event of real paced runs is replayed through the model and checked against the property's bound; leak detection by census metamorphics after forced collections.",
   note=TRUST + " usize overflow is not modelled; interned strings, chunks and functions are excluded by design.",
   technique="Lean 4 proof (invariants over allocation histories; tri-colour completeness) + replay of real allocator event streams + census metamorphics",
   ref="DESIGN.md section 5 C16"),
+ "C04": dict(
+  text="Lean 4 theorem verify_sound: if the Lean bytecode verifier (abstract interpretation over operand-stack height and handler stack) accepts a function, then on EVERY execution of the frame machine the pc is an instruction boundary inside the code, the height and handler stack at each instruction are the statically assigned ones and every local, constant, upvalue and pop is in range; proved from the post-fixpoint check alone (the worklist is untrusted); jump-limit lemmas. The verifier runs on the REAL compiler's output for every function of every program (translation validation); on real runs every executed instruction's height and handler depth is compared with the annotation; byte-exact limit sweeps.",
+  note=TRUST + " The frame machine abstracts vm.rs per frame (calls atomic, values nondeterministic, the exception-in-flight flag not modelled); its opcode effects are tied to vm.rs by the per-instruction comparison only. Known findings F13, F23, F27 are programs the verifier rightly rejects.",
+  technique="Lean 4 proof (soundness of abstract interpretation from a checked post-fixpoint) + translation validation of every compiled function + per-instruction trace comparison",
+  ref="DESIGN.md section 5 C04"),
  "C06": dict(
   text="Lean 4 theorems on the captured-variable mechanism (open-cell list of a fiber): open_sorted, capture_shares, close_exact and the refinement refines_cells(_run): every disciplined operation sequence behaves like the abstract store 'one variable per slot instance' in which cells read/write the variable they were created for, before and after the slot is closed and popped. Tie: every capture/close event of real runs replayed through the model; scoping scenarios with constructed expected output in six syntactic positions; program differential against the Lean reference interpreter.",
   note=TRUST + " The discipline hypothesis (the compiler never truncates below an open cell without closing it) is checked per program (C04 verifier, scenario runs), not proved; name resolution of the real compiler is tied to the reference interpreter by differential runs only.",
